@@ -69,6 +69,16 @@ W3DivSmall(num, d, K) ==
     LET S == {k \in 0..K : W3Le(W3Mul(d, k), num)}
     IN  CHOOSE k \in S : \A j \in S : j <= k
 
+\* Division and remainder of a word by a small natural m (m * B < 2^31).
+WDivSmall(w, m) ==
+    LET qh == w[1] \div m
+        r1 == w[1] % m
+        lo == r1 * B + w[2]
+    IN  <<qh, lo \div m>>
+WModSmall(w, m) == ((w[1] % m) * (B % m) + w[2]) % m
+\* a * k mod 2^W for a small natural k (alias of WMulWrap, for readability)
+WScale(a, k) == WMulWrap(a, k)
+
 \* Number of significant bits.
 LimbBitLen(x) == CHOOSE k \in 0..HB : x < 2^k /\ (k = 0 \/ x >= 2^(k - 1))
 WBitLen(w) == IF w[1] > 0 THEN HB + LimbBitLen(w[1]) ELSE LimbBitLen(w[2])
